@@ -33,12 +33,12 @@ FLOORS = {'quick': {'evaluations': 15000, 'nontrivial': 8000, 'counters': {'lazi
 
 CONDS = [f'C{i}' for i in range(1, 9)]
 # canary cells (formula cells, so that both the library trace and the reference see their evaluation)
-CANARY = {'N1': '=100+1', 'N2': '=200+2', 'N3': '=300+3', 'T1': '="ab"&"c"', 'T2': '="xy"&"z"', 'E1': '=1/0', 'E2': '=1/0'}
+CANARY = {'N1': '=100+1', 'N2': '=200+2', 'N3': '=300+3', 'T1': '="ab"&"c"', 'T2': '="xy"&"z"', 'T3': '="#"&"77"', 'E1': '=1/0', 'E2': '=1/0'}
 BASE = {'K1': 1, 'L1': 10, 'K2': 2, 'L2': 20, **CANARY}
 NUM_OK = ['7', '2.5', 'N1', 'N2', 'N3', 'VLOOKUP(2,K1:L2,2,FALSE)', '0', '12', 'N1*2', '(N2-1)']
 NUM_ERR = ['1/0', 'E1', 'E2', 'VLOOKUP(99,K1:L2,2,FALSE)', '"#N/A"', '"#DIV/0!"', 'MONTH(T1)', 'YEAR(T2)', 'VLOOKUP(2,K1:L2,5,FALSE)', 'INDEX(K1:L2,5,1)',
            'MATCH(99,K1:K2,0)', 'SEARCH("z","abc")', 'DAY("abc")']
-TXT_OK = ['"t"', '"uv"', 'T1', 'T2', 'LEFT("qrs",2)', '"w"&"x"']
+TXT_OK = ['"t"', '"uv"', 'T1', 'T2', 'LEFT("qrs",2)', '"w"&"x"', '"#1"', '"#42"', '"#TOP"', '"#A/B"', '"N/A"', '"#"', '"#n/a"', 'T3']
 TXT_ERR = ['1/0', 'E1', '"#VALUE!"', '"#REF!"', '"#NULL!"', '"#NUM!"', 'MID("abc",0,1)', 'LEFT("abc",-1)', 'MONTH(T1)', 'VLOOKUP(2,K1:L2,5,FALSE)']
 
 
